@@ -255,7 +255,7 @@ func readerMain(mode string, a args) {
 		}
 		r := rand.New(rand.NewSource(int64(a.num("seed", 1))))
 		n, maxl := a.num("n", 10), a.num("maxlen", 60)
-		alpha := []byte{'a', 'a', '_', '1', 'b', ' ', '\t', '\n', '\f', '\r', 0xC3, 0xA9, 0xE2, 0x82, 0xAC, 0xFF, '9', '\v', 0xC2, 0xA0, 0x85, 0}
+		alpha := []byte{'a', 'a', '_', '1', 'b', ' ', '\t', '\n', '\f', '\r', 0xC3, 0xA9, 0xE2, 0x82, 0xAC, 0xFF, '9', '\v', 0xC2, 0xA0, 0x85, 0, 0xE9}
 		for c := 0; c < n; c++ {
 			l := r.Intn(maxl + 1)
 			raw := make([]byte, l)
